@@ -83,6 +83,41 @@ func TestVerifABEObjectReuse(t *testing.T) {
 		}
 		lib.Count("reuse:policy-reparsed")
 	}
+	// one Policy object through every way of (re)filling it - FromString,
+	// ExtractFromCiphertext - with String(), Equal and Satisfaction used in
+	// between: after each refill the object must print, compare and judge
+	// exactly like a fresh object filled the same way
+	{
+		lib.Mandatory("reuse:policy-object-refilled")
+		var one tkn20.Policy
+		for step := 0; step < 3*len(pols); step++ {
+			i := (step * 2) % len(pols)
+			var fresh tkn20.Policy
+			var e1, e2 error
+			how := "FromString"
+			if step%3 == 1 {
+				how = "ExtractFromCiphertext"
+				e1, e2 = one.ExtractFromCiphertext(cts[i]), fresh.ExtractFromCiphertext(cts[i])
+			} else {
+				e1, e2 = one.FromString(pols[i].text), fresh.FromString(pols[i].text)
+			}
+			if e1 != nil || e2 != nil {
+				lib.Violation("C20:policy-object-reuse:"+how, rmon, lib.D("policy", pols[i].text, "err_reused", e1, "err_fresh", e2))
+				break
+			}
+			lib.Count("reuse:policy-object-refilled")
+			s1, s2 := one.String(), fresh.String()
+			same := s1 == s2 && one.Equal(&fresh) && fresh.Equal(&one)
+			for _, a := range sets {
+				same = same && one.Satisfaction(toAttrs(a)) == fresh.Satisfaction(toAttrs(a))
+			}
+			if !same {
+				lib.Violation("C20:policy-object-reuse:"+how, rmon, lib.D("policy", pols[i].text, "reused_object_prints", s1, "fresh_object_prints", s2,
+					"history", "the object was printed and judged under its previous contents before being refilled"))
+				break
+			}
+		}
+	}
 	// the randomness source may deliver its octets in short pieces: Encrypt,
 	// KeyGen and Setup must produce exactly what they produce from the same
 	// octets delivered whole
@@ -366,4 +401,10 @@ func TestVerifABEConcurrent(t *testing.T) {
 			lib.CaseS("concurrent", ptxt, string(rune('0'+round)))
 		}
 	}
+}
+
+func toAttrs(a abepol.Assign) tkn20.Attributes {
+	var at tkn20.Attributes
+	at.FromMap(map[string]string(a))
+	return at
 }
